@@ -18,7 +18,7 @@ var registry = map[string]propCfg{
 	},
 	"C10": {
 		Engine: "ledgersim", Level: "exploration",
-		Quick:       tierCfg{Runs: 4000, BudgetS: 60, MinimiseS: 20},
+		Quick:       tierCfg{Runs: 20000, BudgetS: 60, MinimiseS: 20},
 		Thorough:    tierCfg{Runs: 300000, BudgetS: 900, MinimiseS: 120},
 		Rule:        "one case = a seeded list of per-block write sets realised three times on independent real ledgers: canonical; through a different history (permuted order, overwritten intermediate writes, reads, reverted snapshot noise, AddState vs SetState, no-op writes, tx boundaries, LRU sizes 1..8, reopen between blocks) whose roots must equal the canonical ones; and with one perturbed element (value, dropped key, added key, balance, nonce, code byte) whose root must differ; non-trivial = at least one block; distinct = distinct event-log digests (roots of all three realisations)",
 		Assumptions: []string{"SHA-256 collisions are not a practical source of false alarms", "the transaction-root / receipt-root clause is a pure function of inputs and is checked by chainsim-based perturbation, see DESIGN.md"},
@@ -26,7 +26,7 @@ var registry = map[string]propCfg{
 	},
 	"C12": {
 		Engine: "ledgersim", Level: "exploration",
-		Quick:       tierCfg{Runs: 1500, BudgetS: 90, MinimiseS: 30},
+		Quick:       tierCfg{Runs: 8000, BudgetS: 90, MinimiseS: 30},
 		Thorough:    tierCfg{Runs: 100000, BudgetS: 1200, MinimiseS: 180},
 		Rule:        "one case = a seeded history on the full real ledger (state store + chain store + block file): blocks of set/add/del/balance/nonce/code/touch writes, rollbacks to head-k, 0, beyond the journal window, above head and to head, reopen, and re-execution of the rolled-back blocks; after every accepted rollback the state read through the getters and the raw state store are compared with what was recorded when that height was committed, re-executed blocks must reproduce roots and hashes, refused rollbacks must leave all stores byte-identical; non-trivial = >=2 blocks and >=1 rollback attempt; distinct = distinct event-log digests",
 		Assumptions: []string{"blocks are synthetic (harness-built headers and transactions); re-execution through the block executor's height-mismatch path is exercised by chainsim"},
@@ -34,7 +34,7 @@ var registry = map[string]propCfg{
 	},
 	"C09": {
 		Engine: "ledgersim", Level: "exploration",
-		Quick:       tierCfg{Runs: 1500, BudgetS: 90, MinimiseS: 30},
+		Quick:       tierCfg{Runs: 8000, BudgetS: 90, MinimiseS: 30},
 		Thorough:    tierCfg{Runs: 100000, BudgetS: 1200, MinimiseS: 180},
 		Rule:        "one case = a seeded history of synthetic blocks (0-4 transactions, receipts, interchain counters), rollbacks, reopens and re-executions on the full real ledger; after every step every height <= head is read back through GetBlock/GetBlockByHash/GetBlockHash/GetTransaction/GetTransactionMeta/GetReceipt/GetInterchainMeta/GetChainMeta and compared with what was executed, and every lookup for a rolled-back block or transaction must fail; non-trivial = >=2 blocks and >=1 rollback attempt; distinct = distinct event-log digests",
 		Assumptions: []string{"ledger half only: transaction/receipt Merkle roots are recomputed against the executor's output by the chainsim part of this check"},
@@ -42,7 +42,7 @@ var registry = map[string]propCfg{
 	},
 	"C11": {
 		Engine: "ledgersim", Level: "fault_enumeration",
-		Quick:       tierCfg{Runs: 160, BudgetS: 120, MinimiseS: 30},
+		Quick:       tierCfg{Runs: 480, BudgetS: 120, MinimiseS: 30},
 		Thorough:    tierCfg{Runs: 6000, BudgetS: 1500, MinimiseS: 180},
 		Rule:        "one case = a seeded block history (2-16 blocks, so that genesis-like first blocks and journal-pruning heights occur) on the full real ledger; for each selected commit the durable writes are recorded as the code issues them (SimKV batch logs of state and chain store, growth of the 5x2 block-file files) and EVERY crash image prefix(state batches) x prefix(chain batches) x prefix(block-file writes) is built (exhaustive per selected commit), reopened with ledger.New, checked (opens; head in {N-1,N}; head block readable and equal to the executed one; state version, state read through getters and raw state store equal the never-crashed reference at that height; all lower blocks and indexes intact) and continued to the end of the history comparing block hashes; non-trivial = >=4 images; distinct = distinct event-log digests (history + image list)",
 		Assumptions: []string{"process-crash semantics: a completed write survives (leveldb is written without sync and the block file is never fsynced, so power loss is out of scope of the statement)", "a leveldb batch is atomic; block-file writes reach the file in issue order", "torn records inside one write are an extra, separately labelled probe (thorough tier)"},
@@ -50,14 +50,14 @@ var registry = map[string]propCfg{
 	},
 	"C18": {
 		Engine: "poolsim", Level: "exploration",
-		Quick:       tierCfg{Runs: 6000, BudgetS: 90, MinimiseS: 30},
+		Quick:       tierCfg{Runs: 60000, BudgetS: 90, MinimiseS: 30},
 		Thorough:    tierCfg{Runs: 600000, BudgetS: 1200, MinimiseS: 180},
 		Rule:        poolRule,
 		Assumptions: poolAssumptions, Components: poolComponents,
 	},
 	"C19": {
 		Engine: "poolsim", Level: "exploration",
-		Quick:       tierCfg{Runs: 6000, BudgetS: 90, MinimiseS: 30},
+		Quick:       tierCfg{Runs: 60000, BudgetS: 90, MinimiseS: 30},
 		Thorough:    tierCfg{Runs: 600000, BudgetS: 1200, MinimiseS: 180},
 		Rule:        poolRule + "; C19 additionally ends every run with the continuation 'generate and commit batches until the pool reports no pending work' and checks that every admitted transaction whose lower nonces are present was batched",
 		Assumptions: poolAssumptions, Components: poolComponents,
